@@ -42,6 +42,15 @@ class Obligation(object):
     s.add(z3.Not(self.goal))
     return "(set-logic ALL)\n" + s.to_smt2()
 
+  def smt2_relaxed(self):
+    """the same VC without the quantified hypotheses (unsat here => unsat with them)"""
+    s = z3.Solver()
+    for a in self.pc:
+      if not has_quantifier(a):
+        s.add(a)
+    s.add(z3.Not(self.goal))
+    return "(set-logic ALL)\n" + s.to_smt2()
+
 
 _QCACHE = {}
 
